@@ -20,8 +20,8 @@ func checkC04(c *Ctx) {
 	c.NotDec = append(c.NotDec, "byte-exact conformance", "rounding functions (Power2Round, Decompose, MakeHint, UseHint), samplers and NTT", "that the signing loop terminates with the specified distribution")
 
 	type mode struct {
-		pkg                                    string
-		nist                                   bool
+		pkg                                       string
+		nist                                      bool
 		k, l, eta, tau, omega, g1bits, g2, ct, tr int64
 	}
 	modes := []mode{
@@ -62,10 +62,10 @@ func checkC04(c *Ctx) {
 		c.callArgRule(p, "C04.strict", "z and the hint are read at their offsets c̃ ‖ z ‖ h", un, "(*"+ip+".VecL).UnpackLeGamma1", "", map[int]string{1: fmt.Sprintf(`param#1\[%d:\]`, m.ct)})
 		uh := p.Func(ip, "VecK", "UnpackHint")
 		om := fmt.Sprint(m.omega)
-		i := `phi\(\(↺\+1\)\|0\)`                                     // polynomial counter
-		sop := `param#1\[\(` + om + `\+` + i + `\)\]`                 // SOP = buf[ω+i]
-		prev := `phi\(0\|` + sop + `\)`                               // prevSOP
-		j := `phi\(\(↺\+1\)\|` + prev + `\)`                          // index scan starting at prevSOP
+		i := `phi\(\(↺\+1\)\|0\)`                     // polynomial counter
+		sop := `param#1\[\(` + om + `\+` + i + `\)\]` // SOP = buf[ω+i]
+		prev := `phi\(0\|` + sop + `\)`               // prevSOP
+		j := `phi\(\(↺\+1\)\|` + prev + `\)`          // index scan starting at prevSOP
 		for _, t := range []struct{ name, re string }{
 			{"switch-over points are non-decreasing", sop + ` < ` + prev},
 			{"switch-over points are at most ω", sop + ` > ` + om},
